@@ -184,3 +184,33 @@ def run(ctx, prog, rid):
                    '%s written after the user callback' % ', '.join(sorted(set(s['q'].split('::')[-1] for s in late))), where=f.loc(u['i']))
     if n_writes < 3:
         raise AnalysisBroken('expected at least 3 value_number_ updates (add, tick, cleanup), saw %d' % n_writes)
+
+
+def run_users(ctx, prog, rid, owner_cls):
+    """the owner side: TimeoutMonitor::cleanup() forgets the callback (cb_ = nullptr), so whoever initialises a monitor again must install the callback again"""
+    ctx.rule(rid, 'A5 re-initialisation agreement: TimeoutMonitor::cleanup() drops its callback; every function of %s that (re)initialises a monitor member also installs '
+             'the callback on that path (or no code outside the destructor ever cleans that member up) — otherwise the next life of the object never reports a timeout'
+             % owner_cls.split('::')[-1], floor=1)
+    cname, ms = _methods(prog)
+    cl = [f for f in ms if f.name.split('::')[-1] == 'cleanup']
+    drops = bool(cl) and any((f_.s(f_.strip_casts(rhs)) or {}).get('k') in ('CXXNullPtrLiteralExpr', 'GNUNullExpr') for f_ in cl for a, rhs in q.assigns(f_, 'cb_'))
+    owner = [f for f in prog.funcs.values() if (prog.outermost(f).cls or '') == owner_cls]
+    members = set()
+    for f in owner:
+        for c in f.calls():
+            if c.get('cls', '').startswith(CLS) and 'obj' in c and f.field_of(c['obj']):
+                members.add(f.field_of(c['obj']))
+    if not members:
+        raise AnalysisBroken('%s has no TimeoutMonitor member in the analysed units' % owner_cls)
+    for m in sorted(members):
+        short = m.split('::')[-1]
+        def calls(fn_):
+            return [(f, c) for f in owner for c in f.calls() if c.get('fn') == fn_ and c.get('cls', '').startswith(CLS) and 'obj' in c and f.field_of(c['obj']) == m]
+        cleans = [(f, c) for f, c in calls('cleanup') if not prog.outermost(f).d.get('dtor')]
+        for f, c in calls('initialize'):
+            sets = [s_ for g, s_ in calls('setCallback') if g is f]
+            ok = (not drops) or (not cleans) or any(f.cfg.dominates(q.pt(f, s_), q.pt(f, c)) or (f.cfg.postdominates(q.pt(f, s_), q.pt(f, c)) if hasattr(f.cfg, 'postdominates') else False) for s_ in sets)
+            ctx.ob(rid, '%s|%s.initialize' % (f.name, short), ok,
+                   'the callback of %s is installed where it is initialised' % short if sets and ok else ('%s is never cleaned up outside the destructor' % short if ok else
+                   '%s is initialised here without installing its callback, while %s cleans it up (which clears the callback): after cleanup()+initialize() '
+                   'nothing is ever reported as timed out' % (short, cleans[0][0].name if cleans else '?')), where=f.loc(c['i']))
